@@ -93,9 +93,11 @@ def _reported(ta: Any) -> dict[str, dict[str, list[Any]]]:
     return out
 
 
-def analyze(label: str, env: Any, source: str, entry: str) -> Any:
+def analyze(label: str, env: Any, source: str, entry: str, name: Optional[str] = None) -> Any:
     """The analysis through one of its three public entry points."""
     if entry == "string":
+        if name is not None:
+            return env.analyze_tags_from_string(source, name=name)
         return env.analyze_tags_from_string(source)
     store = _STORES[label]
     if store.get("t") != source:
@@ -109,15 +111,19 @@ def analyze(label: str, env: Any, source: str, entry: str) -> Any:
     raise AssertionError(entry)
 
 
-def evaluate(label: str, source: str, names: Optional[tuple[str, ...]], entry: str = "string") -> dict[str, Any]:
+def evaluate(label: str, source: str, names: Optional[tuple[str, ...]], entry: str = "string",
+             name: Optional[str] = None, history: Optional[str] = None) -> dict[str, Any]:
     """Run one case.  ``names`` is the abstract token sequence (None for generator programs:
-    clause 3 is then not applied)."""
+    clause 3 is then not applied).  ``name`` is the template name handed to the analysis;
+    ``history`` labels what was analysed just before in this process (cross-environment pairs)
+    and is added to every signature."""
     from liquid.exceptions import LiquidError
 
     env, facts = get_env(label)
     viols: list[dict[str, Any]] = []
     counts: Counter[str] = Counter()
     case = {"env": label, "source": source, "seq": list(names) if names is not None else None, "entry": entry}
+    hsig: dict[str, Any] = {"history": history} if history else {}
     tokens = M.scan_tags(source)
     scanned = tuple(n for n, _ in tokens)
     if names is not None and scanned != names:
@@ -127,7 +133,7 @@ def evaluate(label: str, source: str, names: Optional[tuple[str, ...]], entry: s
     got: Optional[dict[str, dict[str, list[Any]]]] = None
     raised = ""
     try:
-        ta = analyze(label, env, source, entry)
+        ta = analyze(label, env, source, entry, name)
     except Exception as e:  # noqa: BLE001  any exception is the violation
         try:
             list(env.tokenizer()(source))
@@ -142,7 +148,8 @@ def evaluate(label: str, source: str, names: Optional[tuple[str, ...]], entry: s
         feature = "end-tag-with-no-open-block" if M.stray_end(scanned, facts) else "no-stray-end-tag"
         where = raise_site(e)
         viols.append({
-            "signature": {"clause": "1-total", "exc": raised, "feature": feature, "where": where, "env": label},
+            "signature": {"clause": "1-total", "exc": raised, "feature": feature, "where": where, "env": label,
+                          **hsig},
             "what": f"[{label}] tag analysis ({entry}) of {source!r} raised {raised}: {str(e)[:80]} at {where}",
             "case": case,
         })
@@ -183,7 +190,7 @@ def evaluate(label: str, source: str, names: Optional[tuple[str, ...]], entry: s
                     else:
                         feature = "innermost-block=" + str(c["innermost"])
                     sig = {"clause": "2-no-false-alarm", "field": field, "tag": tag, "feature": feature,
-                           "env": label}
+                           "env": label, **hsig}
                     key = repr(sorted(sig.items()))
                     if key in seen:
                         continue
@@ -207,7 +214,7 @@ def evaluate(label: str, source: str, names: Optional[tuple[str, ...]], entry: s
             for tag in sorted(must_unknown - set(got["unknown"])):
                 elsewhere = [f for f in ("unclosed", "unexpected") if tag in got[f]]
                 viols.append({
-                    "signature": {"clause": "3a-unknown-reported", "tag": tag, "env": label,
+                    "signature": {"clause": "3a-unknown-reported", "tag": tag, "env": label, **hsig,
                                   "feature": "reported-as-" + "+".join(elsewhere) if elsewhere else "not-reported"},
                     "what": f"[{label}] {source!r}: {tag!r} is not registered and is no end/inner tag of a "
                             f"registered block, but unknown_tags is {sorted(got['unknown'])}",
@@ -215,7 +222,7 @@ def evaluate(label: str, source: str, names: Optional[tuple[str, ...]], entry: s
                 })
             for tag in sorted(must_unclosed - set(got["unclosed"])):
                 viols.append({
-                    "signature": {"clause": "3b-unclosed-reported", "tag": tag, "env": label},
+                    "signature": {"clause": "3b-unclosed-reported", "tag": tag, "env": label, **hsig},
                     "what": f"[{label}] {source!r}: block {tag!r} has more opening tags than end tags after "
                             f"them, but unclosed_tags is {sorted(got['unclosed'])}",
                     "case": case,
@@ -252,6 +259,14 @@ def spaces(tier: str) -> list[dict[str, Any]]:
     def gen(env: str, n: int, d: int, level: str) -> None:
         sp.append({"kind": "gen", "env": env, "n": n, "d": d, "level": level})
 
+    def pair(base: dict[str, Any], only_differing: bool) -> None:
+        """The same (template name, source) analysed in BOTH environments within one process, in
+        both orders (default->extra on the plain text, extra->default on the text plus a
+        trailing newline, so the two orders share no source text); all three clauses on each
+        of the four results.  ``only_differing``: only sources with a tag name on which the
+        two tag registers differ."""
+        sp.append({"kind": "pair", "env": "both", "base": base, "only_differing": only_differing})
+
     if tier == "quick":
         # default environment
         seq("default", "A19", range(0, 5))
@@ -280,6 +295,14 @@ def spaces(tier: str) -> list[dict[str, Any]]:
         seq("extra", "A28", range(0, 3), entry="loader")
         seq("extra", "A28", range(0, 3), entry="loader-async")
         gen("extra", 2, 2, "full")
+        # cross-environment histories
+        for n in range(1, 4):
+            pair({"kind": "seq", "env": "extra", "menu": "A28", "len": n, "decor": "plain"}, True)
+        for n in range(0, 3):
+            pair({"kind": "seq", "env": "extra", "menu": "A19", "len": n, "decor": "plain"}, False)
+        pair({"kind": "mut", "env": "extra", "skel": "if-for-block-translate", "lens": [7, 8], "devs": 0,
+              "menu": "A28"}, True)
+        pair({"kind": "gen", "env": "extra", "n": 2, "d": 2, "level": "full"}, True)
     else:
         seq("default", "A19", range(0, 6))
         seq("default", "M10", range(6, 7))
@@ -305,11 +328,21 @@ def spaces(tier: str) -> list[dict[str, Any]]:
         seq("extra", "A28", range(0, 4), entry="loader-async")
         gen("extra", 3, 3, "core")
         gen("extra", 2, 2, "full")
+        for n in range(1, 5):
+            pair({"kind": "seq", "env": "extra", "menu": "A28", "len": n, "decor": "plain"}, True)
+        for n in range(0, 4):
+            pair({"kind": "seq", "env": "extra", "menu": "A19", "len": n, "decor": "plain"}, False)
+        pair({"kind": "mut", "env": "extra", "skel": "x7", "lens": [7, 8], "devs": 0, "menu": "A28"}, True)
+        pair({"kind": "mut", "env": "extra", "skel": "if-for-block-translate", "lens": [7], "devs": 1,
+              "menu": "D12x"}, True)
+        pair({"kind": "gen", "env": "extra", "n": 2, "d": 2, "level": "full"}, True)
     return sp
 
 
 def space_size(s: dict[str, Any]) -> int:
     """Number of work units of a space (sequences, skeletons or programs)."""
+    if s["kind"] == "pair":
+        return space_size(s["base"])
     if s["kind"] == "seq":
         return len(M.MENUS[s["menu"]]) ** s["len"]
     if s["kind"] == "mut":
@@ -321,6 +354,8 @@ def space_size(s: dict[str, Any]) -> int:
 
 def unit_cost(s: dict[str, Any]) -> int:
     """Cases per work unit (for balancing shards)."""
+    if s["kind"] == "pair":
+        return 4 * unit_cost(s["base"])
     if s["kind"] != "mut":
         return 4 if s["kind"] == "gen" else 1
     k = len(M.MENUS[s["menu"]])
@@ -328,9 +363,45 @@ def unit_cost(s: dict[str, Any]) -> int:
     return {0: 1, 1: n * k, 2: (n * (n - 1) // 2) * k * k}[s["devs"]]
 
 
+PAIR_NAME = "pair"
+PAIR_ORDERS = (("default", "extra", ""), ("extra", "default", "\n"))
+
+
+def registers_differ(names: tuple[str, ...]) -> bool:
+    """Some tag name of the source is registered / an end tag / an inner tag of a registered
+    block in one of the two environments but not in the other."""
+    fd, fx = get_env("default")[1], get_env("extra")[1]
+    for n in set(names):
+        for a, b in ((fd.registered, fx.registered), (fd.end_of_registered, fx.end_of_registered),
+                     (fd.inner_of_registered, fx.inner_of_registered)):
+            if (n in a) != (n in b):
+                return True
+    return False
+
+
+def evaluate_pair(source: str, names: Optional[tuple[str, ...]]) -> list[dict[str, Any]]:
+    """Four evaluations: both environments, both orders, same template name within an order."""
+    out = []
+    for first, second, suffix in PAIR_ORDERS:
+        src = source + suffix
+        out.append(evaluate(first, src, names, "string", PAIR_NAME, f"first-of-pair:{first}-then-{second}"))
+        out.append(evaluate(second, src, names, "string", PAIR_NAME, f"second-of-pair:{first}-then-{second}"))
+    for r in out:
+        r["case"].update({"pair": True, "pair_source": source})  # shared with the violations' case
+        r["outcome"] = "pair|" + r["outcome"]
+    return out
+
+
 def iter_cases(s: dict[str, Any], lo: int, hi: int) -> Any:
     """Yield (source, names or None) for work units lo..hi of a space."""
-    if s["kind"] == "seq":
+    if s["kind"] == "pair":
+        for source, names in iter_cases(s["base"], lo, hi):
+            if s["only_differing"]:
+                nm = names if names is not None else tuple(n for n, _ in M.scan_tags(source))
+                if not registers_differ(nm):
+                    continue
+            yield source, names
+    elif s["kind"] == "seq":
         for names in M.seqs_range(M.MENUS[s["menu"]], s["len"], lo, hi):
             yield M.render(names, s["decor"]), names
     elif s["kind"] == "mut":
@@ -363,7 +434,10 @@ class C21(Check):
         "(environment, entry point, source) triple run through the tag analysis and strict from_string. "
         "Non-trivial = the analysis returned and either the source has >= 1 tag and parses in strict mode "
         "(clause 2 premise holds) or the abstract sequence contains a definitely-unknown name or a "
-        "definitely-unclosed registered block (clause 3 demands something); identity = (environment, entry point, source)."
+        "definitely-unclosed registered block (clause 3 demands something); identity = (environment, entry point, source). "
+        "Cross-environment pairs: the same (template name, source) is analysed in both environments within one "
+        "process, default first on the plain text and extra first on the text plus a trailing newline; each of the "
+        "four results is one evaluation judged by all three clauses."
     )
     assumptions = [
         "tag expressions do not influence tag analysis (one well-formed expression per tag name)",
@@ -379,7 +453,15 @@ class C21(Check):
     def bounds(self, tier: str) -> dict[str, Any]:
         out: dict[str, Any] = {}
         for s in spaces(tier):
-            if s["kind"] == "seq":
+            if s["kind"] == "pair":
+                b = s["base"]
+                what = (f"sequences over {b['menu']} length {b['len']}" if b["kind"] == "seq" else
+                        f"skeletons {b['skel']} lengths {b['lens']} with exactly {b['devs']} substitutions from "
+                        f"{b['menu']}" if b["kind"] == "mut" else
+                        f"generator programs n<={b['n']} d<={b['d']} level={b['level']} (extra menus)")
+                out[f"both environments in one process, both orders, same template name: {what}"
+                    f"{' containing a tag name on which the tag registers differ' if s['only_differing'] else ''}"] = "all"
+            elif s["kind"] == "seq":
                 key = f"{s['env']}: all sequences over {s['menu']} ({s['decor']}, via {s['entry']})"
                 out[key] = sorted(set(out.get(key, [])) | {s["len"]})
             elif s["kind"] == "mut":
@@ -415,21 +497,32 @@ class C21(Check):
         res = Result()
         n_samples = 0
         for source, names in iter_cases(s, lo, hi):
-            r = evaluate(label, source, names, entry)
-            sample = None
-            if r["nontrivial"] and n_samples < 1 and len(source) > 30:
-                n_samples += 1
-                sample = {"env": label, "source": source, "outcome": r["outcome"]}
-            res.case(nontrivial=(label + "\x00" + entry + "\x00" + source) if r["nontrivial"] else None, outcome=r["outcome"], sample=sample)
-            for k, v in r["counts"].items():
-                res.count(k, v)
-            for v in r["violations"]:
-                res.violation(v["signature"], v["what"], v["case"])
+            if s["kind"] == "pair":
+                rs = evaluate_pair(source, names)
+            else:
+                rs = [evaluate(label, source, names, entry)]
+            for i, r in enumerate(rs):
+                sample = None
+                if r["nontrivial"] and n_samples < 1 and len(source) > 30:
+                    n_samples += 1
+                    sample = {"env": r["case"]["env"], "source": r["case"]["source"], "outcome": r["outcome"]}
+                ident = f"{label}\x00{entry}\x00{i}\x00{source}"
+                res.case(nontrivial=ident if r["nontrivial"] else None, outcome=r["outcome"], sample=sample)
+                for k, v in r["counts"].items():
+                    res.count(k, v)
+                for v in r["violations"]:
+                    res.violation(v["signature"], v["what"], v["case"])
         res.count(f"cases:{s['kind']}:{label}", res.evaluations)
         return res
 
     def replay(self, case: Any) -> list[dict[str, Any]]:
         names = tuple(case["seq"]) if case.get("seq") is not None else None
+        if case.get("pair"):
+            out: list[dict[str, Any]] = []
+            for r in evaluate_pair(case["pair_source"], names):
+                print(f"  env={r['case']['env']} source={r['case']['source']!r} outcome={r['outcome']}")
+                out.extend(r["violations"])
+            return out
         r = evaluate(case["env"], case["source"], names, case.get("entry", "string"))
         print(f"  env={case['env']} entry={case.get('entry', 'string')} source={case['source']!r}\n  outcome={r['outcome']}")
         return list(r["violations"])
